@@ -1,5 +1,7 @@
 _ENV = {'GOTRACEBACK': 'crash'}   # a fatal signal in a worker ends it with SIGABRT (driver: crash protocol), not exit 2
 
+BINARIES = {'c14shim': {'pkg': './cmd/c14', 'overlay': 'shim', 'flags': ['-gcflags=all=-l']}}
+
 SPEC = {
     'level': 'model_checking',
     'engine': 'E',
@@ -22,6 +24,8 @@ SPEC = {
         {'bin': 'c14', 'shards': 4, 'sub': 'dry', 'env': _ENV},
         {'bin': 'c14', 'shards': 8, 'sub': 'live', 'env': _ENV},
         {'bin': 'c14', 'shards': 8, 'sub': 'xpage', 'env': _ENV},
+        # environment seam: the syscall shim logs every mprotect request goom makes (PROT_EXEC must never be dropped)
+        {'bin': 'c14shim', 'shards': 4, 'sub': 'protlog', 'env': _ENV},
     ],
     'rule': 'engine E. dry: one case per entry of the runtime function table (FuncForPC walk over .text) = GetFuncSize + '
             'patch.Ptr (never applied) + UnpatchAll; plus 50 functions x k=1..jumpLen+2 synthetic entries end-k in int3 padding '
@@ -33,8 +37,8 @@ SPEC = {
             'judged synthetic entries, live = cases in which the entry bytes really changed, cross-page = writes that straddle the boundary. '
             'unjudged: synthetic k = jumpLen, refusals of functions that could hold the jump.',
     'assumptions': [
-        'the during-write X bit ("pages remain executable throughout") is not observable from /proc/self/maps at quiescence; it is '
-        'checked by C11\'s mprotect-log seam. Here: permissions after every operation',
+        'the during-write X bit ("pages remain executable throughout") is not observable from /proc/self/maps at quiescence; the protlog job '
+        'observes it through the syscall shim (every mprotect request of goom is logged and must keep PROT_EXEC); C11 additionally checks it at every scheduling point',
         'the jump length is taken from goom\'s own emitter (len(jmpToFunctionValue(0,0))), not hard-coded',
         'function extents come from the Go runtime\'s function table (entry of the next function), not from goom\'s scanner',
         'a function exactly as long as the jump may be accepted or refused (the statement says "too short")',
